@@ -11,6 +11,101 @@ import (
 // fixed quick worlds.  Oracle: the provenance oracle of evalMutation, applied
 // against every quick world (the input is tried as EF.SOD of each of them).
 
+// lyingLength mirrors the traversal of gmrtd's tlv.Decode / tlv.Unwrap without
+// allocating and reports whether the input falls into the class of the OPEN
+// C12 finding F7a (a declared definite length >= 512 KiB that exceeds the
+// bytes remaining: the library allocates it before checking).  Such inputs
+// kill the process where memory is limited; they are C12's subject and are
+// excluded here while that finding is open.
+func lyingLength(data []byte) bool {
+	nodes := 0
+	var walk func(b []byte, depth int, indefinite bool) (rest []byte, lying, stop bool)
+	walk = func(b []byte, depth int, indefinite bool) ([]byte, bool, bool) {
+		if depth > 50 {
+			return nil, false, true
+		}
+		for len(b) > 0 {
+			// tag
+			tag := uint32(b[0])
+			b = b[1:]
+			if tag&0x1f == 0x1f {
+				for {
+					if tag&0xFF000000 != 0 || len(b) == 0 {
+						return nil, false, true
+					}
+					t := b[0]
+					b = b[1:]
+					tag = tag<<8 + uint32(t)
+					if t&0x80 == 0 {
+						break
+					}
+				}
+			}
+			// length
+			if len(b) == 0 {
+				return nil, false, true
+			}
+			l0 := b[0]
+			b = b[1:]
+			length := -1
+			switch {
+			case l0 <= 0x7f:
+				length = int(l0)
+			case l0 == 0x80:
+			case l0 <= 0x84:
+				n := int(l0 - 0x80)
+				if len(b) < n {
+					return nil, false, true
+				}
+				length = 0
+				for _, c := range b[:n] {
+					length = length<<8 | int(c)
+				}
+				b = b[n:]
+			default:
+				return nil, false, true
+			}
+			if tag == 0 && length == 0 {
+				return b, false, false
+			}
+			if nodes++; nodes > 10000 {
+				return nil, false, true
+			}
+			first := tag
+			for first > 0xff {
+				first >>= 8
+			}
+			constructed := first&0x20 != 0
+			if length > len(b) {
+				return nil, length >= 512*1024, true
+			}
+			switch {
+			case constructed && length < 0:
+				rest, lying, stop := walk(b, depth+1, true)
+				if lying || stop {
+					return nil, lying, true
+				}
+				b = rest
+			case constructed:
+				_, lying, stop := walk(b[:length], depth+1, false)
+				if lying || stop {
+					return nil, lying, true
+				}
+				b = b[length:]
+			case length < 0:
+				return nil, false, true
+			default:
+				b = b[length:]
+			}
+		}
+		return b, false, false
+	}
+	_, lying, _ := walk(data, 0, false)
+	return lying
+}
+
+const c12F7a = "F7a-lying-length-alloc"
+
 func fuzzWorlds(t testing.TB) []*world {
 	var ws []*world
 	for _, s := range quickWorlds {
@@ -29,7 +124,7 @@ func FuzzSODMutation(f *testing.F) {
 		f.Add(w.sod2.DER)
 	}
 	f.Fuzz(func(t *testing.T, data []byte) {
-		if len(data) > 1<<16 {
+		if len(data) > 1<<16 || (evid.Open("C12", c12F7a) && lyingLength(data)) {
 			return
 		}
 		for _, w := range fuzzWorlds(t) {
